@@ -23,6 +23,11 @@ STATUSES = ["WAITING", "FIREABLE", "RUNNING", "SKIPPED", "COMPLETED", "FAILED", 
 
 
 # ====================================================================================== generation
+def is_stacked_loc(l):
+    """a location spec is stacked on the location it wraps unless it says otherwise (old corpus cases have no 'stacked' key)"""
+    return l.get("wraps") is not None and l.get("stacked", True)
+
+
 def gen_cap(rng, layouts, binds=None, big=False):
     lay = rng.choice(layouts)
     s = []
@@ -51,21 +56,25 @@ def gen_case(rng, size="small", allow_stacked=True, allow_multi=True):
     ndeps = 1 if contention else rng.randrange(1, 4)
     for d in range(ndeps):
         name = f"d{d}"
-        stacked = inner is not None and rng.random() < 0.7
+        stacked = inner is not None and rng.random() < 0.7          # "stacked" here = the deployment WRAPS the host deployment
+        is_stacked = rng.random() < 0.6                             # ... and its locations are stacked on it (containers) or not (queue managers)
         kind = rng.choice(["hw", "hw", "hw", "slots"])
         locs = []
         for i in range(1 if contention else rng.randrange(1, 4)):
             wraps = rng.choice(inner["locs"])["name"] if stacked else None
-            inner_hw = stacked and inner["locs"][0]["cap"] is not None
+            inner_hw = stacked and is_stacked and inner["locs"][0]["cap"] is not None
             if kind == "hw":
                 cap = gen_cap(rng, CAP_LAYOUTS, binds=["/vol", "/big"] if inner_hw else None)
-                locs.append({"name": f"{name}l{i}", "cap": cap, "slots": None, "wraps": wraps})
+                locs.append({"name": f"{name}l{i}", "cap": cap, "slots": None, "wraps": wraps, "stacked": bool(wraps) and is_stacked})
             else:
-                locs.append({"name": f"{name}l{i}", "cap": None, "slots": rng.choice([None, 1, 1, 2, 3]), "wraps": wraps})
+                locs.append({"name": f"{name}l{i}", "cap": None, "slots": rng.choice([None, 1, 1, 2, 3]), "wraps": wraps,
+                             "stacked": bool(wraps) and is_stacked})
         deps.append({"name": name, "wraps": "host" if stacked else None, "locs": locs})
     if inner is not None:
         deps.append(inner)
     outer = [d for d in deps if d["name"] != "host"]
+    if inner is not None and rng.random() < 0.5:
+        outer = outer + [inner]                  # jobs may also be submitted directly to the wrapped host
     njobs = rng.randrange(4, 8) if contention else rng.randrange(2, 5 if size == "small" else 8)
     names = []
     for j in range(njobs):
@@ -173,7 +182,7 @@ class SchedDriver:
                         wraps = self.connector._locations(None)[l["wraps"]]
                     out[l["name"]] = driver.AvailableLocation(
                         name=l["name"], deployment=self.deployment_name, hostname="fake", service=service,
-                        slots=l["slots"], stacked=l.get("wraps") is not None,
+                        slots=l["slots"], stacked=is_stacked_loc(l),
                         hardware=driver.codec.build(l["cap"]) if l["cap"] is not None else None, wraps=wraps)
                 return out
 
@@ -449,7 +458,7 @@ def chains_of(case):
             chain, cur, dep = [], l, d
             while cur is not None:
                 chain.append({**cur, "dep": dep["name"]})
-                if cur.get("wraps") is None:
+                if not is_stacked_loc(cur):
                     break
                 dep = specs[dep["wraps"]]
                 cur = next(x for x in dep["locs"] if x["name"] == cur["wraps"])
